@@ -1,4 +1,5 @@
 import RepeVerif.Model.WriterDiscipline
+import RepeVerif.Gen.Torn
 import RepeVerif.Driver.Common
 /-!
 Driver for the `torn` correspondence family (C05).
@@ -15,12 +16,9 @@ endpoint's two discipline facts and reads the prediction off the final state.
 namespace Repe.Driver.Torn
 open Repe Repe.Driver Repe.WD
 
-/-- The facts claimed for the six endpoints (blocking/async/WebSocket client, blocking/async/WebSocket
-server): each holds its writer lock (or is the only writer) for a whole frame and fails the connection
-when a frame is interrupted. -/
-def claimed : Nat → Option Facts
-  | 0 | 1 | 2 | 3 | 4 | 5 => some ⟨true, true⟩
-  | _ => none
+/-- The facts of the six endpoints (blocking/async/WebSocket client, blocking/async/WebSocket server) as
+re-extracted from the current source (`Gen.Torn`): the model is run with what the code says today. -/
+def claimed (ep : Nat) : Option Facts := (Gen.Torn.obs ep).map Obs.facts
 
 /-- digest (byte expansion) only up to this many bytes; must equal `DIGEST_CAP` of the harness -/
 def digestCap : Nat := 4 * 1024 * 1024
